@@ -10,6 +10,7 @@ import (
 	"verif/mc/props/c05"
 	"verif/mc/props/c11"
 	"verif/mc/props/c12"
+	"verif/mc/props/c13"
 	"verif/mc/props/c19"
 )
 
@@ -22,6 +23,7 @@ func main() {
 		"C05": c05.Prop,
 		"C11": c11.Prop,
 		"C12": c12.Prop,
+		"C13": c13.Prop,
 		"C19": c19.Prop,
 	})
 }
